@@ -7,6 +7,7 @@ import (
 	"io"
 	"os"
 	"strconv"
+	"sync"
 
 	"github.com/lidofinance/dc4bc/storage"
 
@@ -19,6 +20,10 @@ var _ storage.Storage = (*FileStorage)(nil)
 type FileStorage struct {
 	lockFile *fslock.Lock
 
+	// mu serialises the use of dataFile by this handle: a node sends (API
+	// requests) and reads (poller) through one handle, and both move the
+	// position of the one open file while they scan it
+	mu       sync.Mutex
 	dataFile *os.File
 
 	idIgnoreList     map[string]struct{}
@@ -77,6 +82,8 @@ func (fs *FileStorage) send(m storage.Message) (storage.Message, error) {
 		data []byte
 		err  error
 	)
+	fs.mu.Lock()
+	defer fs.mu.Unlock()
 	simYield(fs, "send.beforeLock")
 	if err = fs.lockFile.Lock(); err != nil {
 		return m, fmt.Errorf("failed to lock a file:  %w", err)
@@ -123,6 +130,8 @@ func (fs *FileStorage) GetMessages(offset uint64) ([]storage.Message, error) {
 		row  []byte
 		data storage.Message
 	)
+	fs.mu.Lock()
+	defer fs.mu.Unlock()
 	simYield(fs, "get.beforeRead")
 	if _, err = fs.dataFile.Seek(0, 0); err != nil {
 		return nil, fmt.Errorf("failed to seek a offset to the start of a data file:  %w", err)
